@@ -45,6 +45,7 @@ class Target:
     # method name -> (external number, argument sources; "$recv" = the receiver expression, whatever it is): dynamic dispatch on
     # an object held in a field, a local, a parameter or a helper's return value
     ext_attrs: dict[str, int] = field(default_factory=dict)     # attribute path (source text) read through an external, no arguments
+    obj_attrs: dict[str, int] = field(default_factory=dict)     # attribute name read off an object held in a local -> external, [object]
     await_ext: int | None = None        # `await <expr>` of something that is not itself an external call -> this external, [expr]
     callables: dict[str, int] = field(default_factory=dict)     # parameter / local that is called: name -> external, args [callee, *args]
     self_names: tuple[str, ...] = ("self", "cls")
@@ -165,6 +166,8 @@ class Tr:
         if isinstance(n, ast.Attribute):
             if self.src(n) in self.t.ext_attrs:
                 return [], f"(Expr.call {self.t.ext_attrs[self.src(n)]} Expr.nil)"
+            if isinstance(n.value, ast.Name) and n.value.id in self.locals and n.attr in self.t.obj_attrs:
+                return [], f"(Expr.call {self.t.obj_attrs[n.attr]} {self.lst([f'(Expr.loc {self.locals[n.value.id]})'])})"
             if isinstance(n.value, ast.Name) and n.value.id in self.t.self_names:
                 if n.attr in self.t.fields:
                     return [], f"(Expr.fld {self.t.fields[n.attr]})"
@@ -799,6 +802,12 @@ def translate(repo, t: Target) -> tuple[str, dict[str, int]]:
         pieces = {"pre": tr.stmts(inner[:k]), "step": tr.loop_step(inner[k]), "post": tr.stmts(inner[k + 1:]),
                   "tail": tr.stmt(body[1])}      # translated in program order: the numbering of the locals is that of the whole
         return pieces[t.part.split(".")[1]], dict(tr.locals)
+    if t.part == "while.step":
+        # the one top-level `while <test>: <body>` of the function, as one iteration `<body> if <test> else break`
+        loops = [x for x in body if isinstance(x, ast.While)]
+        if len(loops) != 1 or loops[0].orelse:
+            raise Unrecognised(f"{t.method}: not exactly one top-level while loop")
+        return tr.loop_step(loops[0]), dict(tr.locals)
     if t.part is not None and t.part.startswith("for."):
         # `<pre…>; for <x> in <iterable>: <body>; <post…>` with exactly one top-level `for`; one of the pieces, or the whole
         # assembled as `seq <pre> (seq (forEach x <iterable> <body>) <post>)`
